@@ -1138,6 +1138,27 @@ theorem rm_nil_returned_without_assertion (s : RM.St) (t : Tid) (x : Nat) (hpc :
     ((RM.step s t x).bind (·.rets.head?)).map (·.val) = some RM.nilInst := by
   unfold RM.step; rw [hpc]; simp [hv, ha]
 
+def RM.PC.front : RM.PC → Bool
+  | .p0 | .p1 | .p2 | .p3 => true
+  | _ => false
+
+/-- **nobody who asserts the type is ever handed the nil instance** (`GetResource`, `doTake`: `asrt`, no lookup in front of
+the flight): on every schedule every returned call returned something else — the callers of a key that holds the nil
+instance panic instead (`rm_nil_leader_panics`, `rm_nil_joiner_panics`). -/
+theorem rm_nil_never_returned_asserted {s : RM.St} (h : RM.Reach s) (ha : s.cfg.asrt = true) (hp : s.cfg.pre = false) :
+    (∀ t, (s.pc t).front = false) ∧ ∀ r ∈ s.rets, r.val ≠ RM.nilInst := by
+  induction h with
+  | init cfg => simp [RM.init, RM.PC.front]
+  | step t x hr hs ih =>
+    rename_i s0 s1
+    have hc := rm_cfg_constant hs
+    rw [hc] at ha hp
+    obtain ⟨i1, i2⟩ := ih ha hp
+    have it := i1 t
+    unfold RM.step at hs
+    split at hs <;> (try split at hs) <;> simp at hs <;> (try subst hs) <;>
+      simp_all [upd, RM.PC.front] <;> (try (intro u; by_cases hu : u = t <;> simp_all [RM.PC.front]))
+
 /-- the poisoned key (`GetResource`): goroutine 0's `create` returns `(nil, nil)` — it is stored, goroutine 0 panics;
 goroutine 1 comes later, finds the nil instance in the map and panics, too: nobody ever returns. -/
 example : (RM.run (RM.init .getResource) ([(0,2)] ++ List.replicate 11 (0,0) ++ [(0,1)] ++ List.replicate 9 (0,0) ++
